@@ -94,7 +94,7 @@ def build_obligation(inst):
                     r = funsor.reinterpret(r)
                 else:
                     raise ValueError(variant)
-            except (NotImplementedError, ValueError) as e:
+            except (NotImplementedError, ValueError, AssertionError) as e:
                 raise Decline("%s: %s" % (type(e).__name__, str(e)[:80]))
             want = set(cfg["batch"]) | {p for p, _, _ in cfg["pairs"]} | {c for _, c, _ in cfg["pairs"]}
             if "time" not in dict((k, n) for k, n in cfg["axes"]) or True:
